@@ -199,6 +199,95 @@ def work_search(src):
     return n, fails
 
 
+# ---- statement-sequence patterns: every window of consecutive statements in every searched block
+SEQ_PATTERNS = [("{{a}} = 10\n{{b}} = 5", 2), ("{{a}} = 10\n{{b}} = 5\n{{c}} = {{a}}", 3), ("{{a}} = 10", 1)]
+FILL = {"M": ["p = 10", "q = 5"], "M3": ["p = 10", "q = 5", "r = p"], "H": ["p = 10"], "T": ["q = 5"], "F": ["z = 0"], "FF": ["z = 0", "w = 1"], "FM": ["z = 0", "p = 10", "q = 5"],
+        "MF": ["p = 10", "q = 5", "z = 0"], "MM": ["p = 10", "q = 5", "p = 10", "q = 5"], "FFM3": ["z = 0", "w = 1", "p = 10", "q = 5", "r = p"]}
+BLOCK_FRAMES = [
+    # {0}, {1}, {2} are statement lists; every block of the frame is one the property names: module, definitions, if / for / while / with
+    "{0}\nif cond:\n{1:4}\nelse:\n{2:4}\n",
+    "if cond:\n{0:4}\nelif other:\n{1:4}\nelse:\n{2:4}\n",
+    "for i in it:\n{0:4}\nelse:\n{1:4}\n{2}\n",
+    "while cond:\n{0:4}\nelse:\n{1:4}\n{2}\n",
+    "def f():\n{0:4}\n    for i in it:\n{1:8}\n    else:\n{2:8}\n",
+    "class K:\n{0:4}\n\n    def m(self):\n{1:8}\n        with ctx:\n{2:12}\n",
+    "async def f():\n{0:4}\n    if cond:\n{1:8}\n    else:\n{2:8}\n",
+    "with ctx:\n{0:4}\n    while cond:\n{1:8}\n    else:\n{2:8}\n",
+    "def f():\n    if a:\n{0:8}\n    elif b:\n{1:8}\n    elif c:\n{2:8}\n    else:\n{0:8}\n",
+    "async def f():\n    async for i in it:\n{0:8}\n    else:\n{1:8}\n    async with ctx:\n{2:8}\n",
+]
+
+
+class _Stmts:
+    def __init__(self, key):
+        self.lines = FILL[key]
+
+    def __format__(self, spec):
+        ind = " " * int(spec or 0)
+        return "\n".join(ind + l for l in self.lines)
+
+
+def _window_oracle(tree, k):
+    """independent reading of the property: windows of k consecutive statements `NAME = 10; NAME = 5[; NAME = <first name>]` in the body / orelse
+    lists of modules, definitions, if / for / while / with blocks"""
+    def is_assign(st, value):
+        return isinstance(st, ast.Assign) and len(st.targets) == 1 and isinstance(st.targets[0], ast.Name) and isinstance(st.value, ast.Constant) and st.value.value == value
+    found = []
+    kinds = (ast.Module, ast.FunctionDef, ast.AsyncFunctionDef, ast.ClassDef, ast.If, ast.For, ast.AsyncFor, ast.While, ast.With, ast.AsyncWith)
+    for node in ast.walk(tree):
+        if not isinstance(node, kinds):
+            continue
+        for field in ("body", "orelse"):
+            body = getattr(node, field, None) or []
+            for i in range(len(body) - k + 1):
+                w = body[i:i + k]
+                ok = is_assign(w[0], 10) and (k < 2 or is_assign(w[1], 5))
+                if ok and k == 3:
+                    ok = isinstance(w[2], ast.Assign) and isinstance(w[2].value, ast.Name) and w[2].value.id == w[0].targets[0].id and isinstance(w[2].targets[0], ast.Name)
+                if ok:
+                    found.append(w[0].lineno)
+    return sorted(found)
+
+
+def work_sequences(frame_idx):
+    from pyrefact import core, processing
+    P.quiet()
+    fails, n = [], 0
+    frame = BLOCK_FRAMES[frame_idx]
+    keys = list(FILL)
+    for a in keys:
+        for b in keys:
+            for c in keys:
+                src = frame.format(_Stmts(a), _Stmts(b), _Stmts(c))
+                try:
+                    tree = ast.parse(src)
+                except SyntaxError:
+                    continue
+                for pat, k in SEQ_PATTERNS:
+                    n += 1
+                    want = _window_oracle(tree, k)
+                    try:
+                        templates = core.compile_template(pat)
+                        templates = templates if isinstance(templates, (list, tuple)) else [templates]
+                        got = sorted(m[0][0].lineno for m in core.walk_sequence(core.parse(src), *templates))
+                    except Exception as ex:  # noqa: BLE001
+                        fails.append({"cls": f"sequence:raises:{type(ex).__name__}", "what": f"walk_sequence({pat!r}) on {src!r} raised {type(ex).__name__}: {ex}"})
+                        continue
+                    if got != want:
+                        cls = "sequence:missed" if set(want) - set(got) else ("sequence:reported-twice" if len(got) != len(set(got)) else "sequence:spurious")
+                        fails.append({"cls": cls, "what": f"walk_sequence({pat!r}) on {src!r}: occurrences start at lines {got}, every window of the searched blocks gives {want}"})
+                        continue
+                    if k == 2:
+                        try:
+                            rewrites = sorted(core.get_charnos(x[0], src).start if hasattr(x[0], "lineno") else x[0].start for x in processing.find_replace(src, pat, "{{b}} = 6\n{{a}} = 11"))
+                        except Exception as ex:  # noqa: BLE001
+                            fails.append({"cls": f"sequence:find_replace-raises:{type(ex).__name__}", "what": f"find_replace({pat!r}) on {src!r} raised {type(ex).__name__}: {ex}"})
+                            continue
+                        if len(rewrites) != len(want):
+                            fails.append({"cls": "sequence:find_replace-count", "what": f"find_replace({pat!r}) on {src!r}: {len(rewrites)} rewrites, {len(want)} occurrences"})
+    return n, fails
+
+
 def run(tier, seed):
     rnd = random.Random(seed)
     specs = [list(t) for k in range(0, 5) for t in itertools.product(ELEMS, repeat=k)]
@@ -214,7 +303,16 @@ def run(tier, seed):
     srcs = P.corpus()
     sin = rnd.sample(srcs, 150 if tier == "quick" else len(srcs))
     r3 = P.pool_map(work_search, sin, chunksize=4)
+    r5 = P.pool_map(work_sequences, list(range(len(BLOCK_FRAMES))), chunksize=1)
     out = []
+    fl, n = [], 0
+    for cnt, fs in r5:
+        n += cnt
+        for f in fs:
+            fl.append({"id": f"{f['cls']}::{f['what'][:160]}", "cls": f["cls"], "input": f["what"], "observed": f["what"], "required": "every window of consecutive statements of every searched block, once"})
+    out.append({"name": "c12-statement-sequences", "function": "core.walk_sequence, processing.find_replace", "contract": "occurrences of a statement-sequence pattern == windows of consecutive statements in the body / orelse lists of modules, definitions, if / for / while / with blocks (independent ast walk)",
+                "space": f"{len(BLOCK_FRAMES)} block frames (module, def, async def, class, if/elif/else, for/else, while/else, with, nested) x {len(FILL)}^3 fillings of three statement lists (pattern at the start / middle / end / twice / absent, blocks shorter and longer than the pattern) x {len(SEQ_PATTERNS)} patterns",
+                "bound": "enumerated frames and fillings", "evaluations": n, "distinct_nontrivial": len(BLOCK_FRAMES) * len(FILL) ** 3, "exhaustive": True, "failures": P.cap(fl), "samples": [BLOCK_FRAMES[2].format(_Stmts("FM"), _Stmts("M"), _Stmts("F"))]})
     fl, n = [], 0
     for k, (cnt, fs) in enumerate(r1):
         n += cnt
